@@ -87,7 +87,9 @@ class ReportLuns(SCSICommand):
 
         for l in data["luns"]:
             _r = bytearray(8)
-            encode_dict(l, cls._datain_bits, _r)
+            # unmarshall_datain reports the entries as {"lun<n>": value}
+            for value in l.values():
+                encode_dict({"lun": value}, cls._datain_bits, _r)
 
             result += _r
         result[:4] = scsi_int_to_ba(len(result) - 8, 4)
